@@ -20,6 +20,8 @@ type Config struct {
 	// ExtraModels: raw YAML entries of the models section (two-space indented), e.g. a binding to a
 	// user-written Go type
 	ExtraModels string `json:"extra_models,omitempty"`
+	// SchemaGlob: the schema entry ("*.graphqls" when empty)
+	SchemaGlob string `json:"schema_glob,omitempty"`
 }
 
 var BoolOptions = []string{
@@ -54,7 +56,11 @@ func Draw(t *rapid.T, pkg string, fields []string) Config {
 // YAML renders gqlgen.yml.
 func (c Config) YAML() string {
 	var sb strings.Builder
-	sb.WriteString("schema:\n  - \"*.graphqls\"\nskip_mod_tidy: true\nskip_validation: true\n")
+	glob := "*.graphqls"
+	if c.SchemaGlob != "" {
+		glob = c.SchemaGlob
+	}
+	sb.WriteString("schema:\n  - \"" + glob + "\"\nskip_mod_tidy: true\nskip_validation: true\n")
 	sb.WriteString("exec:\n")
 	if c.ExecLayout == "follow-schema" {
 		fmt.Fprintf(&sb, "  layout: follow-schema\n  dir: .\n  package: %s\n", c.Package)
